@@ -45,7 +45,7 @@ namespace PhQ {
 /// \brief Constitutive model for an incompressible Newtonian fluid. This is the simplest
 /// constitutive model for a fluid. The viscous stress tensor at a point is a linear function of
 /// only the local strain rate tensor at that point.
-template <typename NumericType = double>
+template <typename NumericType>
 class ConstitutiveModel::IncompressibleNewtonianFluid : public ConstitutiveModel {
 public:
   /// \brief Default constructor. Constructs an incompressible Newtonian fluid constitutive model
